@@ -8,16 +8,17 @@ from .format_props import specs_keys
 def check(tier, seed):
     d = Decision("C13", tier, seed)
     d.add_units(fold_canaries(run_units(specs_product(tier) + specs_evals(tier) + specs_wiring(tier) + specs_keys(tier))))
-    d.add_lean(NAT_LEAN + NAT_LEAN_NH + ["PV.Laws.scaleHom", "PV.Laws.scale_law", "PV.Bridge.coeff_mul_blocks", "PV.Rename.renameHom", "PV.Rename.rename_law", "PV.Rename.rename_law_injective"])
+    d.add_lean(NAT_LEAN + NAT_LEAN_NH + ["PV.Laws.scaleHom", "PV.Laws.scale_law", "PV.Bridge.coeff_mul_blocks", "PV.Rename.pushHom", "PV.Rename.push_law", "PV.Rename.renameHom", "PV.Rename.rename_law", "PV.Rename.rename_law_injective", "PV.Rename.power_law"])
     d.assumptions += [NAT_NOTE,
                       "scale law: fully mechanised for the concrete model (PV.Laws.scale_law: for block series over any coefficient algebra with a block structure, rational scale factors, "
                       "any number of parameters, order n of H_tilde, U, U^dagger is multiplied by prod_k c_k^(n_k)); merge / permute / vanishing-perturbation laws: fully mechanised as well "
                       "(PV.Rename.rename_law: for ANY map f between parameter sets with finite fibres, order m of the outputs for the renamed Hamiltonian is the sum of the orders n of the original "
                       "outputs with mapDomain f n = m - identifying two parameters gives the sum over n1 + n2 = m; PV.Rename.rename_law_injective: an injective f (permutation, adjoining unused "
-                      "parameters) only relabels orders and the new orders outside the range vanish); real / complex scale factors and the substitution lambda -> lambda^p are instances of "
-                      "naturality whose homomorphism property is not mechanised:",
-                      INSTANCE_NOTE + "scaling lambda_k -> c_k lambda_k by a non-rational factor and lambda -> lambda^p are order-filtration preserving ring homomorphisms of multivariate power series "
-                      "over the block algebra that act on coefficients only through the order index, hence commute with adjoint and with the kept/eliminated split",
+                      "parameters) only relabels orders and the new orders outside the range vanish); the substitution lambda -> lambda^p: PV.Rename.power_law (order p n of the new outputs "
+                      "is order n of the old ones, all other orders vanish) - all instances of one general push-forward construction (PV.Rename.pushHom / push_law) for non-commutative coefficients; "
+                      "real / complex (non-rational) scale factors remain an instance of naturality whose homomorphism property is not mechanised:",
+                      INSTANCE_NOTE + "scaling lambda_k -> c_k lambda_k by a non-rational factor is an order-filtration preserving ring homomorphism of multivariate power series "
+                      "over the block algebra that acts on coefficients only through the order index, hence commutes with adjoint and with the kept/eliminated split",
                       "the generated evaluators depend on the order index only through Cauchy products and the zeroth-order test (proved per evaluator by translation "
                       "validation against order-independent equations: units contracts.algorithm_evals)"]
     d.not_decided += ["the laws for the non-Hermitian algorithm outside the inputs on which it is exact (known finding F-NH of C05)",
